@@ -38,6 +38,12 @@ static unsigned char* peer; static size_t peerlen;   /* what the peer end receiv
 static unsigned char* cap; static size_t caplen;     /* what the interposers accepted */
 static int peerfds, peereof, shutok;
 
+/* libuv's allocator: `alloc_fail` armed = the next uv__malloc/uv__calloc/uv__realloc is refused */
+static int alloc_fail, alloc_refused;
+static void* h_malloc(size_t n) { if (alloc_fail) { alloc_fail = 0; alloc_refused++; errno = ENOMEM; return NULL; } return malloc(n); }
+static void* h_calloc(size_t a, size_t b) { if (alloc_fail) { alloc_fail = 0; alloc_refused++; errno = ENOMEM; return NULL; } return calloc(a, b); }
+static void* h_realloc(void* p, size_t n) { if (alloc_fail) { alloc_fail = 0; alloc_refused++; errno = ENOMEM; return NULL; } return realloc(p, n); }
+
 static unsigned char byte_of(unsigned tag, size_t off) { return (unsigned char) ((tag * 131u + off * 7u + 3u) % 251u); }
 
 /* ------------------------------------------------------------------ interposition */
@@ -200,7 +206,7 @@ static unsigned* parse_bufs(const char* s, unsigned* n) {
   *n = cnt; return out;
 }
 
-static void do_write(const char* bufs, int with_handle, int try) {
+static void do_write(const char* bufs, int with_handle, int try, int nomem) {
   unsigned n, id = nextid++; unsigned* lens = parse_bufs(bufs, &n);
   size_t total = 0, off = 0; int rc;
   if (!lens || n == 0) { printf("bad-op\n"); free(lens); return; }
@@ -215,7 +221,9 @@ static void do_write(const char* bufs, int with_handle, int try) {
   } else {
     struct wreq* w = malloc(sizeof(*w));
     w->id = id; w->data = data;
+    alloc_fail = nomem;
     rc = uv_write2(&w->req, &h.s, b, n, with_handle ? (uv_stream_t*) &sendh : NULL, write_cb);
+    alloc_fail = 0;
     if (rc != 0) { free(data); free(w); }
   }
   free(b); free(lens);                       /* libuv must have copied the uv_buf_t array */
@@ -228,10 +236,12 @@ static void do_op(char* w, int in_script) {
   if (in_script) { arg = strchr(w, ':'); if (arg) *arg++ = 0; }
   else { arg = strchr(w, ' '); if (arg) { *arg++ = 0; while (*arg == ' ') arg++; } }
   if (arg) { char* e = arg + strlen(arg); while (e > arg && (e[-1] == '\n' || e[-1] == ' ')) *--e = 0; }
-  if (!strcmp(w, "w") && arg) do_write(arg, 0, 0);
-  else if (!strcmp(w, "wh") && arg) do_write(arg, 1, 0);
-  else if (!strcmp(w, "t") && arg) do_write(arg, 0, 1);
-  else if (!strcmp(w, "th") && arg) do_write(arg, 1, 1);
+  if (!strcmp(w, "w") && arg) do_write(arg, 0, 0, 0);
+  else if (!strcmp(w, "wh") && arg) do_write(arg, 1, 0, 0);
+  else if (!strcmp(w, "wm") && arg) do_write(arg, 0, 0, 1);
+  else if (!strcmp(w, "wmh") && arg) do_write(arg, 1, 0, 1);
+  else if (!strcmp(w, "t") && arg) do_write(arg, 0, 1, 0);
+  else if (!strcmp(w, "th") && arg) do_write(arg, 1, 1, 0);
   else if (!strcmp(w, "s") && !arg) {
     uv_shutdown_t* r = malloc(sizeof(*r));
     int rc = uv_shutdown(r, &h.s, shutdown_cb);
@@ -253,6 +263,7 @@ static int tcp_listener(struct sockaddr_in* a) {
 
 static void do_open(const char* kind) {
   int fds[2], l; struct sockaddr_in a;
+  uv_replace_allocator(h_malloc, h_realloc, h_calloc, free);
   uv_loop_init(&loop);
   uv_timer_init(&loop, &keepalive);
   uv_timer_start(&keepalive, (uv_timer_cb) abort, 1000000000, 0);
@@ -322,6 +333,7 @@ int main(void) {
       for (size_t i = 0; i < n; i++) printf("%02x", src[i]);
       printf("\neof %d\n", virt ? want_eof : peereof);
       printf("#fds %d\n", peerfds);
+      printf("#reqs %u\n", loop.active_reqs.count);
       if (!virt && (caplen != peerlen || memcmp(cap, peer, caplen))) printf("#harness-mismatch interposer saw %zu bytes, peer read %zu\n", caplen, peerlen);
       break;
     } else do_op(line, 0);
